@@ -53,6 +53,14 @@ type LoadOpts struct {
 // Load type-checks Dir/... from source and builds SSA for the subject package.
 func Load(o LoadOpts) (*Program, error) {
 	env := os.Environ()
+	// go list must be run by a toolchain at least as new as the one that built
+	// this binary; the sandbox's pre-installed go1.26.8 is used when present.
+	if _, err := os.Stat("/opt/veriftools/go1.26.8/bin/go"); err == nil {
+		if !strings.HasPrefix(os.Getenv("PATH"), "/opt/veriftools/go1.26.8/bin:") {
+			os.Setenv("PATH", "/opt/veriftools/go1.26.8/bin:"+os.Getenv("PATH"))
+		}
+		env = os.Environ()
+	}
 	env = append(env, "GOWORK=off", "GOFLAGS=-mod=mod", "GOPROXY=off", "GOSUMDB=off", "GOTOOLCHAIN=local")
 	if o.GOARCH != "" {
 		env = append(env, "GOARCH="+o.GOARCH, "CGO_ENABLED=0")
@@ -259,6 +267,10 @@ func (p *Program) Name(fn *ssa.Function) string {
 	}
 	if fn.Pkg != nil && fn.Pkg == p.SSA {
 		return fn.RelString(p.SSA.Pkg)
+	}
+	if fn.Pkg == nil {
+		// synthetic wrappers ($bound, $thunk) have no package
+		return fn.RelString(p.Pkg.Types)
 	}
 	return fn.String()
 }
